@@ -335,7 +335,9 @@ func c15(c *core.Ctx) {
 			})
 			c.Check(!early && core.MustPass(core.Entry(rs), core.Returns(rs)[0], func(x ssa.Instruction) bool { return x == ssa.Instruction(dc) }), k+".RegisterService:registry-first", dc.Pos(), "the registry (which may refuse by panicking) is updated before any handler is mounted", "a handler can be mounted before the registry accepted the registration: a refused registration would leave the mux changed")
 			if gi := declaredMethod(p, nt, "GetServiceInfo"); gi != nil {
-				gcalls := core.CallsIn(gi, func(_ *ssa.Call, ci core.CallInfo) bool { return ci.Name == "GetServiceInfo" && ci.Recv == reg.Obj().Name() })
+				gcalls := core.CallsIn(gi, func(_ *ssa.Call, ci core.CallInfo) bool {
+					return ci.Name == "GetServiceInfo" && ci.Recv == reg.Obj().Name()
+				})
 				okGI := len(gcalls) == 1
 				if okGI {
 					// the result is the registry's fresh answer (or nil), and nothing is cached in the transport
